@@ -26,6 +26,9 @@ let op_of x = match list x with
   | [Sym "ev"; w; e] -> AppendEv (nn w, nn e)
   | [Sym "note"; k; v] -> NotesAdd (nn k, nn v)
   | [Sym "init"; w; b; v] -> WriteInit (nn w, nn b, List.map nn (list v))
+  | [Sym "btrunc"; w; b; s] -> BlobTrunc (nn w, nn b, nn s)
+  | [Sym "bfill"; w; b; s; c] -> BlobFill (nn w, nn b, nn s, List.map nn (list c))
+  | [Sym "bget"; w; b; s] -> BlobGet (nn w, nn b, nn s)
   | _ -> failwith "op"
 
 let obj_of_sx x = match x with
@@ -34,6 +37,7 @@ let obj_of_sx x = match x with
       | [Sym "cp"; w; b] -> OCp (nn w, nn b)
       | [Sym "init"; w; b] -> OInit (nn w, nn b)
       | [Sym "rw"; w] -> ORw (nn w)
+      | [Sym "blob"; w; b; s] -> OBlob (nn w, nn b, nn s)
       | _ -> failwith "obj")
 
 let step_of x = match list x with
@@ -48,6 +52,10 @@ let prog_of x : program = match list x with
   | [Sym "appev"; w; e] -> append_event_prog (nn w) (nn e)
   | [Sym "notes"; k; v] -> notes_add_prog (nn k) (nn v)
   | [Sym "ckpt"; w; b; id; es] -> checkpoint_run (nn w) (nn b) (cpt_of id es)
+  | [Sym "ckptfull"; w; b; id; es; tracked; prev] ->
+      checkpoint_run_full (nn w) (nn b) (cpt_of id es)
+        (List.map (fun p -> match list p with [s; c] -> (nn s, List.map nn (list c)) | _ -> failwith "tracked") (list tracked))
+        (List.map nn (list prev))
   | [Sym "commit"; w; b; c; e; n; v] -> commit_prog (nn w) (nn b) (nn c) (nn e) (nn n) (List.map nn (list v))
   | [Sym "rewrite"; w; e; ns] ->
       rewrite_prog (nn w) (nn e) (List.map (fun p -> match list p with [k; v] -> (nn k, nn v) | _ -> failwith "kv") (list ns))
@@ -59,6 +67,7 @@ let okey o = match o with
   | OInit (w, b) -> (1, int_of_n w, int_of_n b)
   | ORw w -> (2, int_of_n w, 0)
   | ONotes -> (3, 0, 0)
+  | OBlob (w, b, s) -> (4, int_of_n w, 1000 * int_of_n b + int_of_n s)
 
 let objects_of (progs : program list) (extra : obj list) : obj list =
   let os = List.concat_map (fun p -> List.concat_map (fun st -> match st with
@@ -75,18 +84,21 @@ let obj_head o = match o with
   | OInit (w, b) -> L [Sym "init"; N (int_of_n w); N (int_of_n b)]
   | ORw w -> L [Sym "rw"; N (int_of_n w)]
   | ONotes -> Sym "notes"
+  | OBlob (w, b, s) -> L [Sym "blob"; N (int_of_n w); N (int_of_n b); N (int_of_n s)]
 
 let show_obj o (v : val0) = match o with
   | OCp (w, b) -> L [Sym "cp"; N (int_of_n w); N (int_of_n b); L (List.map show_cpt (as_cp v))]
   | OInit (w, b) -> L [Sym "init"; N (int_of_n w); N (int_of_n b); nums (as_init v)]
   | ORw w -> L [Sym "rw"; N (int_of_n w); nums (as_ev v)]
   | ONotes -> L [Sym "notes"; L (List.map (fun (k, n) -> L [N (int_of_n k); N (int_of_n n)]) (as_notes v))]
+  | OBlob (w, b, s) -> L [Sym "blob"; N (int_of_n w); N (int_of_n b); N (int_of_n s); nums (as_blob v)]
 
 let content_of o x : val0 = match o with
   | OCp _ -> VCp (List.map (fun c -> match list c with [id; es] -> cpt_of id es | _ -> failwith "cpt") (list x))
   | OInit _ -> VInit (List.map nn (list x))
   | ORw _ -> VEv (List.map nn (list x))
   | ONotes -> VNotes (List.map (fun p -> match list p with [k; v] -> (nn k, nn v) | _ -> failwith "kv") (list x))
+  | OBlob _ -> VBlob (List.map nn (list x))
 
 let c11_run body =
   let progs, sched, init = match parse_many body with
@@ -121,6 +133,6 @@ let c11_gen _ =
   let b x = N (if x then 1 else 0) in
   show (L [L [Sym "cp_locked"; b append_checkpoint_locked]; L [Sym "ev_locked"; b append_event_locked];
            L [Sym "notes_locked"; b notes_add_locked]; L [Sym "refresh_locked"; b post_commit_refresh_locked];
-           L [Sym "swallowed"; b rewrite_errors_swallowed]; L [Sym "max_events"; N (int_of_nat max_events)]])
+           L [Sym "swallowed"; b rewrite_errors_swallowed]; L [Sym "blob_in_place"; b blob_rewritten_in_place]; L [Sym "max_events"; N (int_of_nat max_events)]])
 
 let () = run_driver ["c11-run", c11_run; "c11-aidir", c11_aidir; "c11-gen", c11_gen] []
